@@ -99,3 +99,48 @@ func jsonFinish(doc, eol string, trail int) string {
 	}
 	return doc
 }
+
+// oddFields returns unrelated per-record fields under real-world names in every JSON shape
+// (string, number, bool, null, array, object, nested). The shape of several of them flips with
+// the record's parity, as different generations of the tools wrote them (npm "engines" and
+// "license" as object or array/string, "bundleDependencies" as array or bool, composer
+// "abandoned" as bool or string ...). None of them is a package record.
+func oddFields(i int) jo {
+	if i%2 == 0 {
+		return jo{
+			{"engines", ja{"node >=0.6.0"}},
+			{"license", jo{{"type", "MIT"}, {"url", "https://example.org/LICENSE"}}},
+			{"bin", "cli.js"},
+			{"funding", "https://github.com/sponsors/example"},
+			{"os", ja{"darwin", "linux", "!win32"}},
+			{"cpu", ja{}},
+			{"bundleDependencies", false},
+			{"abandoned", true},
+			{"deprecated", "use not-a-package@9.9.9 instead"},
+			{"extra", nil},
+			{"hasInstallScript", true},
+			{"size", 123456},
+		}
+	}
+	return jo{
+		{"engines", jo{{"node", ">=14"}, {"npm", ">=6"}}},
+		{"license", "MIT"},
+		{"bin", jo{{"not-a-package", "bin/cli.js"}}},
+		{"funding", ja{jo{{"type", "github"}, {"url", "https://github.com/sponsors/example"}}, "https://opencollective.com/example"}},
+		{"os", "linux"},
+		{"cpu", ja{"x64", "arm64"}},
+		{"bundleDependencies", ja{"not-a-package"}},
+		{"abandoned", "not/a-package"},
+		{"deprecated", false},
+		{"extra", jo{{"branch-alias", jo{{"dev-main", "9.9.x-dev"}}}, {"nested", ja{ja{1, 2}, jo{{"name", "not-a-package"}, {"version", "9.9.9"}}}}}},
+		{"peerDependenciesMeta", jo{{"not-a-package", jo{{"optional", true}}}}},
+		{"size", 0},
+	}
+}
+
+func withOdd(e jo, i int) jo {
+	for _, kv := range oddFields(i) {
+		e = append(e, kv)
+	}
+	return e
+}
